@@ -173,13 +173,15 @@ StepF(S) ==
                                            !.seq = S.nsent + (CHOOSE k \in DOMAIN fired : fired[k] = e)]
                      ELSE S.evs[e]]
         newQ   == [k \in DOMAIN fired |-> [eid |-> fired[k], rem |-> S.evs[fired[k]].ds]]
+        delivered == {e \in {due[i] : i \in DOMAIN due} : S.evs[e].rcv \in Ids(S.agents)}
+        estats == [nm \in Names |-> Cardinality({e \in delivered : S.evs[e].name = nm})]    \* DataCollector.event_statistics of this step
         dueAlive == {e \in {due[i] : i \in DOMAIN due} :
                         S.evs[e].rcv \in Ids(S.agents)
                         /\ Handles(S.agents[Pos(S.evs[e].rcv, S.agents)].st, S.evs[e].name)}
     IN [S |-> [agents |-> A.reg, mq |-> newQ \o later, step |-> S.step + 1, evs |-> evs2,
                nsent |-> S.nsent + Len(fired), plan |-> S.plan, nid |-> A.nid, tm |-> A.tm],
         handled |-> hNow, calls |-> A.calls \o <<"end">>, due |-> {due[i] : i \in DOMAIN due}, dueAlive |-> dueAlive,
-        gone |-> A.gone, born |-> A.born]
+        gone |-> A.gone, born |-> A.born, estats |-> estats]
 
 Cur == [agents |-> agents, mq |-> mq, step |-> step, evs |-> evs, nsent |-> nsent, plan |-> plan, nid |-> nextId, tm |-> tmap]
 HObs(h, E) == [i \in DOMAIN h |-> [eid |-> h[i].eid, by |-> h[i].by, at |-> E[h[i].eid].at, seq |-> E[h[i].eid].seq]]
@@ -285,7 +287,7 @@ RunStep ==           \* Model.run_step(step): one externally driven scheduler st
     /\ LET r == StepF(Cur)
        IN /\ Apply(r)
           /\ Log([op |-> "RunStep", k |-> step, t100 |-> step * dt, handled |-> HObs(r.handled, r.S.evs),
-                  calls |-> r.calls \o <<"collect">>, stats |-> Stats(r.S.agents), gone |-> r.gone, born |-> r.born,
+                  calls |-> r.calls \o <<"collect">>, stats |-> Stats(r.S.agents), gone |-> r.gone, born |-> r.born, estats |-> r.estats,
                   q |-> Queries(r.S.agents, r.S.tm, r.S.nid)])
     /\ UNCHANGED dt
 
